@@ -92,7 +92,8 @@ def eval_cases(prop_id: str, run_module: str, terms: list, judge: str = "judge",
     """Evaluate `judge` on every case term inside Coq (vm_compute); returns the failing
     cases as (index, agree, ok, exclusions) and raw outputs of `extra` (per shard)."""
     trial = os.environ.get("VERIF_REPO", "/repo") != "/repo"     # trial runs on a scratch tree may overlap a regular run of the same property
-    d = os.path.join(BUILD, "cases", prop_id, tag + (f"_trial{os.getpid()}" if trial else ""))
+    # one directory per process: two runs of the same check at the same time (another seed, the other tier, a trial) never share files
+    d = os.path.join(BUILD, "cases", prop_id, f"{tag}_{'trial' if trial else 'run'}{os.getpid()}")
     shutil.rmtree(d, ignore_errors=True)
     os.makedirs(d)
     if trial:
@@ -522,6 +523,6 @@ def run(prop, argv=None) -> int:
     print(f"{pid}: obligations {ob['discharged']}/{ob['obligations']}, cases {len(cases)} (nontrivial distinct {len(nontrivial)}), "
           f"disagreements {len(disagreements)}, oracle failures {len(spec_fail)}, {wall:.1f}s")
     if not violations:      # the generated case files (hundreds of MB in the thorough tier) are only of use when something failed
-        for tag in ("cases", "search", "explain", "replay"):      # (not the directories of trial runs that may be going on beside this one)
-            shutil.rmtree(os.path.join(BUILD, "cases", pid, tag), ignore_errors=True)
+        for tag in ("cases", "search", "explain", "replay"):      # (only this process's own directories: other runs may be going on beside this one)
+            shutil.rmtree(os.path.join(BUILD, "cases", pid, f"{tag}_run{os.getpid()}"), ignore_errors=True)
     return 1 if violations else 0
